@@ -151,7 +151,7 @@ theorem replayEntries_count (vis : Nat → Bool) : ∀ (xs : List (Int × Entry)
     (replayEntries vis st xs).count + (msgsOf st.out).length = st.count + (msgsOf (replayEntries vis st xs).out).length := by
   intro xs
   induction xs with
-  | nil => intro st; simp [replayEntries_nil, Nat.add_comm]
+  | nil => intro st; simp [replayEntries_nil]
   | cons x r ih =>
     intro st
     rw [replayEntries_cons]
@@ -182,3 +182,152 @@ theorem view_sublist (dec : Bytes → Option Entry) (now peer : Int) (s : Sender
     (view dec now peer s).Sublist (fullView dec now s) := by
   simp only [view, fullView]
   exact List.Sublist.append (sublist_flatMap _ List.filter_sublist) (List.Sublist.refl _)
+
+theorem view_mono (dec : Bytes → Option Entry) (now p p' : Int) (s : Sender) (h : p ≤ p') (x : Int × Entry)
+    (hx : x ∈ view dec now p' s) : x ∈ view dec now p s := by
+  simp only [view, List.mem_append, List.mem_flatMap, List.mem_filter, decide_eq_true_eq] at hx ⊢
+  rcases hx with ⟨f, ⟨hf, hge⟩, hm⟩ | hx
+  · left; exact ⟨f, ⟨hf, by omega⟩, hm⟩
+  · right; exact hx
+
+/-- A pass that starts where a previous pass over (a superset of) the same records ended sends nothing. -/
+theorem second_pass_empty (dec : Bytes → Option Entry) (vis : Nat → Bool) (now : Int) (s : Sender) (p lp : Int) (lp' : Int) :
+    let r1 := replayPass dec vis now s p lp
+    replayPass dec vis now s r1.peer lp' = ⟨r1.peer, lp', [], 0⟩ := by
+  intro r1
+  have h := replayEntries_peer vis (view dec now p s) ⟨p, lp, [], 0⟩
+  simp only [replayPass]
+  apply replayEntries_all_skipped
+  intro x hx
+  exact h.2 x (view_mono dec now p _ s h.1 x hx)
+
+/-- The loop of ReplayLog: whatever the first pass sent, the following passes send nothing; three
+    iterations always suffice. -/
+theorem replayLoop_first_pass (dec : Bytes → Option Entry) (vis : Nat → Bool) (limit : Nat) (now : Int) (s : Sender) (p : Int) :
+    let r1 := replayPass dec vis now s p p
+    let r := replayLoop (replayPass dec vis now s) limit 3 none p p [] 0
+    r.out = r1.out ∧ r.peer = r1.peer ∧ r.fuelOut = false ∧ 2 ≤ r.passes := by
+  intro r1 r
+  have h2 := second_pass_empty dec vis now s p p
+  simp only at h2
+  have h2a := h2 r1.logpos
+  have h3 : replayPass dec vis now s r1.peer r1.logpos = ⟨r1.peer, r1.logpos, [], 0⟩ := h2a
+  by_cases hc : r1.count > limit
+  · simp only [r, replayLoop, Bool.false_eq_true, if_false, List.nil_append, hc, decide_true, Bool.not_true, h3,
+      List.append_nil, Nat.zero_add]
+    have : ¬ (0 > limit) := by omega
+    simp [this, h3, r1]
+    split <;> simp
+  · simp [r, replayLoop, hc, h3, r1]
+
+/-! ## file selection does not lose anything the filter would let through -/
+
+theorem filter_flatMap_filter {α β : Type} (c : α → Bool) (g : α → List β) (w : β → Bool) : ∀ (L : List α),
+    (∀ a ∈ L, c a = false → ∀ b ∈ g a, w b = false) →
+    ((L.filter c).flatMap g).filter w = (L.flatMap g).filter w := by
+  intro L
+  induction L with
+  | nil => intro _; rfl
+  | cons a r ih =>
+    intro h
+    have ihr := ih (fun x hx => h x (by simp [hx]))
+    cases hc : c a with
+    | true => simp [List.filter_cons, hc, List.flatMap_cons, List.filter_append, ihr]
+    | false =>
+      have : (g a).filter w = [] := List.filter_eq_nil_iff.mpr (fun b hb => by simp [h a (by simp) hc b hb])
+      simp [List.filter_cons, hc, List.flatMap_cons, List.filter_append, ihr, this]
+
+theorem mem_insertByName (f x : LFile) : ∀ (l : List LFile), x ∈ insertByName f l ↔ x = f ∨ x ∈ l := by
+  intro l
+  induction l with
+  | nil => simp [insertByName]
+  | cons g r ih =>
+    simp only [insertByName]
+    split
+    · simp
+    · simp only [List.mem_cons, ih]
+      constructor
+      · rintro (h | h | h) <;> simp [h]
+      · rintro (h | h | h) <;> simp [h]
+
+theorem mem_sortByName (x : LFile) : ∀ (l : List LFile), x ∈ sortByName l ↔ x ∈ l := by
+  intro l
+  induction l with
+  | nil => simp [sortByName]
+  | cons g r ih => simp [sortByName, mem_insertByName, ih]
+
+/-- The view of a pass depends on the directory only. -/
+theorem view_congr (dec : Bytes → Option Entry) (now p : Int) (s₁ s₂ : Sender) (hf : s₁.files = s₂.files)
+    (hc : s₁.current = s₂.current) : view dec now p s₁ = view dec now p s₂ := by
+  simp [view, hf, hc]
+
+/-! ## reading truncated files -/
+
+theorem chunkF_flatten : ∀ (f : Nat) (bs : Bytes), bs.length ≤ f → (chunkF f bs).flatten = bs := by
+  intro f
+  induction f with
+  | zero => intro bs h; have : bs = [] := List.eq_nil_of_length_eq_zero (by omega); subst this; rfl
+  | succ f ih =>
+    intro bs h
+    simp only [chunkF]
+    split
+    · rename_i he; simp at he; simp [he]
+    · rename_i he
+      have hpos : 0 < bs.length := by
+        cases bs with
+        | nil => simp at he
+        | cons => simp
+      rw [List.flatten_cons, ih (bs.drop 65536) (by rw [List.length_drop]; omega), List.take_append_drop]
+
+theorem chunks_flatten (bs : Bytes) : (chunks bs).flatten = bs := chunkF_flatten _ _ (Nat.le_refl _)
+
+theorem takeSome_map_some {α β : Type} (enc : α → β) (dec : β → Option α) (h : ∀ a, dec (enc a) = some a) :
+    ∀ (l : List α), takeSome ((l.map enc).map dec) = l := by
+  intro l
+  induction l with
+  | nil => rfl
+  | cons a r ih => simp only [List.map_cons, h, takeSome, ih]
+
+theorem nsEncodeAll_append (a b : List Bytes) : nsEncodeAll (a ++ b) = nsEncodeAll a ++ nsEncodeAll b := by
+  induction a with
+  | nil => rfl
+  | cons p r ih => simp [nsEncodeAll, ih]
+
+theorem nsEncode_ne_nil (p : Bytes) : nsEncode p ≠ [] := by simp [nsEncode]
+
+/-- A prefix of a sequence of frames = some complete frames + a proper prefix of the next one. -/
+theorem take_encodeAll : ∀ (ps : List Bytes) (k : Nat), ∃ (j : Nat) (t : Bytes),
+    (nsEncodeAll ps).take k = nsEncodeAll (ps.take j) ++ t ∧
+    (t = [] ∨ ∃ q suffix, q ∈ ps ∧ suffix ≠ [] ∧ t ++ suffix = nsEncode q) ∧
+    (nsEncodeAll (ps.take j)).length ≤ k ∧
+    (j < ps.length → k < (nsEncodeAll (ps.take (j + 1))).length) := by
+  intro ps
+  induction ps with
+  | nil => intro k; exact ⟨0, [], by simp [nsEncodeAll], Or.inl rfl, by simp [nsEncodeAll], by simp⟩
+  | cons p r ih =>
+    intro k
+    by_cases hk : k < (nsEncode p).length
+    · refine ⟨0, (nsEncode p).take k, ?_, ?_, by simp [nsEncodeAll], ?_⟩
+      · simp only [nsEncodeAll, List.take_zero, List.nil_append]
+        rw [List.take_append_of_le_length (by omega)]
+      · right
+        refine ⟨p, (nsEncode p).drop k, by simp, ?_, List.take_append_drop _ _⟩
+        intro h
+        have := congrArg List.length h
+        simp only [List.length_drop, List.length_nil] at this
+        omega
+      · intro _
+        simp only [Nat.zero_add, List.take_succ_cons, List.take_zero, nsEncodeAll, List.append_nil]
+        exact hk
+    · obtain ⟨j, t, h1, h2, h3, h4⟩ := ih (k - (nsEncode p).length)
+      refine ⟨j + 1, t, ?_, ?_, ?_, ?_⟩
+      · simp only [nsEncodeAll, List.take_succ_cons, List.append_assoc]
+        rw [List.take_append, List.take_of_length_le (by omega), h1]
+      · rcases h2 with h2 | ⟨q, sfx, hq, hs, he⟩
+        · exact Or.inl h2
+        · exact Or.inr ⟨q, sfx, by simp [hq], hs, he⟩
+      · simp only [List.take_succ_cons, nsEncodeAll, List.length_append]; omega
+      · intro hj
+        have := h4 (by simpa using hj)
+        simp only [List.take_succ_cons, nsEncodeAll, List.length_append] at this ⊢
+        omega
